@@ -13,6 +13,10 @@ from .stmt import StmtMixin
 def _parse_expr(src):
     return ast.parse(src.strip(), mode="eval").body
 
+class _TraceT(T.Ty):
+    def name(self): return "Trace"
+TraceT = _TraceT()
+
 class Executor(CallMixin, EvalMixin, ExprMixin, StmtMixin):
     def __init__(self, spec_types=None):
         self.spec = False
@@ -129,6 +133,16 @@ class Executor(CallMixin, EvalMixin, ExprMixin, StmtMixin):
             d = a[0]
             if isinstance(d.ty, T.Opt): d = SV(d.ty.t, T.opt_val(d.ty, d.t))
             return SV(T.Set(d.ty.k), T.dict_dom(d.ty, d.t))
+        if name == "ext_const":
+            ty, cst = R.EXTCONSTS[a[0].t.as_string()]; return SV(ty, cst)
+        if name == "bn":
+            f = z3.Function("fresh_node", z3.IntSort(), T.sort_of(R.TRACE["elem"].ts[0]))
+            return SV(R.TRACE["elem"].ts[0], f(st.env["__bn__"].t + a[0].t))
+        if name == "select_eq":
+            d1, d2 = a[0], a[1]
+            k = self.coerce(a[2], d1.ty.k).t
+            return SV(T.Bool, z3.And(z3.Select(T.dict_dom(d1.ty, d1.t), k) == z3.Select(T.dict_dom(d2.ty, d2.t), k),
+                                     z3.Select(T.dict_map(d1.ty, d1.t), k) == z3.Select(T.dict_map(d2.ty, d2.t), k)))
         if name == "is_none": return SV(T.Bool, T.opt_is_none(a[0].ty, a[0].t)) if isinstance(a[0].ty, T.Opt) else SV(T.Bool, z3.BoolVal(a[0].ty == T.NoneT))
         if name == "some": return SV(a[0].ty.t, T.opt_val(a[0].ty, a[0].t), cls=a[0].cls)
         if name == "to_real": return self.coerce(a[0], T.Real)
@@ -205,6 +219,9 @@ class Executor(CallMixin, EvalMixin, ExprMixin, StmtMixin):
             v = SV(ty, fresh("ghost_" + g, ty)); self.assume_wf(st, v); st.env[g] = v
         if c.yields is not None:
             st.env["__yielded__"] = self.empty(T.List(c.yields))
+        if R.TRACE and (c.emits is not None or c.bnodes is not None):
+            st.env["__trace__"] = SV(TraceT, z3.Empty(z3.SeqSort(T.sort_of(R.TRACE["elem"]))))
+            st.env["__bn__"] = SV(T.Int, fresh("bn0", T.Int))
         return st
 
     def verify_function(self, qual):
@@ -260,7 +277,7 @@ class Executor(CallMixin, EvalMixin, ExprMixin, StmtMixin):
             if val.ty == T.NoneT and not isinstance(c.returns, T.Opt):
                 self.oblige(st, z3.BoolVal(False), "returns-None-but-contract-says-%s" % c.returns, fnode)
                 return
-            s.env["result"] = self.coerce(val, c.returns)
+            s.env["result"] = self.coerce(val, c.returns, st, fnode)
         for exc, cond in c.raises:
             if cond is not None and not cond.startswith("?"):
                 pre = old.fork(); pre.env = dict(old.env); pre.pc = st.pc
@@ -270,6 +287,11 @@ class Executor(CallMixin, EvalMixin, ExprMixin, StmtMixin):
             g = self.spec_eval(e, s, c)
             for f in s.pc[len(st.pc):]: st.assume(f)
             self.oblige(st, g, "postcondition:%s" % e[:80], fnode)
+        if "__trace__" in st.env and c.emits is not None:
+            pre = old.fork(); pre.env = dict(old.env); pre.pc = st.pc
+            self.oblige(st, st.env["__trace__"].t == self.trace_seq(c, pre), "effect-trace:emitted-events-equal-contract", fnode)
+            n = self.spec_eval(c.bnodes or "0", pre, c, want=None)
+            self.oblige(st, st.env["__bn__"].t == old.env["__bn__"].t + n.t, "effect-trace:fresh-node-count", fnode)
         self.check_frame(c, st, old, fnode)
 
     def check_raise(self, c, st, exc, fnode, old):
